@@ -217,4 +217,57 @@ theorem bindParams_get (ps : List Str) (as : List Value) (fr : Frame) (hnd : ps.
         simp only [bindParams, List.getElem_cons_succ]
         exact ih as _ hqs i (by simpa using hi) (by simpa using ha)
 
+/-! ## deep contents -/
+
+/-- the list cells reachable from a value by following list elements -/
+inductive Reach (h : List Cell) : Value → Nat → Prop
+  | here (a : Nat) : Reach h (.list a) a
+  | step (a : Nat) (vs : List Value) (v : Value) (b : Nat) :
+      h[a]? = some (.list vs) → v ∈ vs → Reach h v b → Reach h (.list a) b
+
+/-- **deep frame**: the rendering of a value (all of its nested contents) depends only on the cells reachable
+from it -/
+theorem displayV_frame (h h' : List Cell) (d : Nat) :
+    (∀ v : Value, (∀ b, Reach h v b → h'[b]? = h[b]?) → displayV h' d v = displayV h d v) ∧
+    (∀ vs : List Value, (∀ v ∈ vs, ∀ b, Reach h v b → h'[b]? = h[b]?) → displayVs h' d vs = displayVs h d vs) := by
+  induction d with
+  | zero =>
+    have hv : ∀ v : Value, displayV h' 0 v = displayV h 0 v := by
+      intro v
+      cases v with
+      | bool b => cases b <;> simp only [displayV]
+      | null | num _ | str _ | obj _ | list _ => simp only [displayV]
+    refine ⟨fun v _ => hv v, ?_⟩
+    intro vs hvs
+    induction vs with
+    | nil => simp only [displayVs]
+    | cons v vs ih =>
+      simp only [displayVs]
+      rw [hv v, ih (fun w hw => hvs w (by simp [hw]))]
+  | succ d ih =>
+    have hv : ∀ v : Value, (∀ b, Reach h v b → h'[b]? = h[b]?) → displayV h' (d+1) v = displayV h (d+1) v := by
+      intro v hr
+      cases v with
+      | list a =>
+        have ha : h'[a]? = h[a]? := hr a (.here a)
+        simp only [displayV, ha]
+        cases hc : h[a]? with
+        | none => rfl
+        | some c =>
+          cases c with
+          | list vs =>
+            simp only []
+            rw [ih.2 vs (fun v hv b hb => hr b (.step a vs v b hc hv hb))]
+          | map m => rfl
+          | robot r => rfl
+      | bool b => cases b <;> simp only [displayV]
+      | null | num _ | str _ | obj _ => simp only [displayV]
+    refine ⟨hv, ?_⟩
+    intro vs hvs
+    induction vs with
+    | nil => simp only [displayVs]
+    | cons v vs ihs =>
+      simp only [displayVs]
+      rw [hv v (hvs v (by simp)), ihs (fun w hw => hvs w (by simp [hw]))]
+
 end Aplang
